@@ -4,8 +4,8 @@ import BadgerProofs.Lemmas.OracleManaged
 /-!
 # C02 — read-write transactions are serializable (SSI conflict detection), oracle level
 
-Model: `BadgerModel/Oracle.lean` (`Oracle`, `Sys`, `Label`, `Reach`). Every theorem quantifies over
-all reachable states `Reach false true n s` of a database opened in **normal mode** with
+Model: `BadgerModel/Oracle.lean` (`Oracle`, `Sys`, `Label`, `OReach`). Every theorem quantifies over
+all reachable states `OReach false true n s` of a database opened in **normal mode** with
 **DetectConflicts** at `MaxVersion() = n`: any number of transactions, any interleaving of
 begin / WaitForMark / read / write / commit / discard / doneCommit steps and of the two watermark
 `process` goroutines (which may lag arbitrarily behind the marks sent), plus `cleanup` at
@@ -15,7 +15,7 @@ timestamp (`allocated` in DESIGN §6; never pruned), in allocation order.
 Fingerprints are arbitrary numbers: "up to 64-bit fingerprint collisions" is built in (a
 collision is a genuine overlap for the model).
 
-Managed mode (`Reach true true n s`): `C02_sound_managed` / `C02_complete_managed` under the API
+Managed mode (`OReach true true n s`): `C02_sound_managed` / `C02_complete_managed` under the API
 contract "`discardTs ≤ readTs` of the committing transaction" (stated hypothesis; without it the
 statement is false by design, `C02_managed_needs_contract`).
 -/
@@ -26,7 +26,7 @@ namespace Badger
     of transactions that hold the read mark at read timestamp `r` (begun, `doneRead` not yet
     called). Hence (`C34_not_ahead`) `readMark.DoneUntil()` — now or later — is `≤` the read
     timestamp of every such transaction. -/
-theorem C02_readMark_counts {d : Bool} {n : Nat} {s : Sys} (h : Reach false d n s) (r : Nat) :
+theorem C02_readMark_counts {d : Bool} {n : Nat} {s : Sys} (h : OReach false d n s) (r : Nat) :
     s.o.readMark.virt.pending.val r = ((s.txns.countP (holdsAt r) : Nat) : Int) ∧
     (∀ x ∈ s.txns, x.holdsRead = true → s.o.readMark.doneUntil ≤ x.t.readTs) := by
   have hI := h.inv
@@ -39,7 +39,7 @@ theorem C02_readMark_counts {d : Bool} {n : Nat} {s : Sys} (h : Reach false d n 
     mark (in particular every open update transaction) has `readTs ≥ readMark.DoneUntil()`;
     (c) therefore every history entry with a commit timestamp above such a transaction's read
     timestamp is still present in `committedTxns`: nothing it could conflict with was pruned. -/
-theorem C02_cleanup_safe {n : Nat} {s : Sys} (h : Reach false true n s) :
+theorem C02_cleanup_safe {n : Nat} {s : Sys} (h : OReach false true n s) :
     s.o.lastCleanupTs ≤ s.o.readMark.doneUntil ∧
     (∀ x ∈ s.txns, x.holdsRead = true → s.o.readMark.doneUntil ≤ x.t.readTs) ∧
     (∀ x ∈ s.txns, x.holdsRead = true → ∀ c ∈ s.hist, x.t.readTs < c.ts →
@@ -56,7 +56,7 @@ theorem C02_cleanup_safe {n : Nat} {s : Sys} (h : Reach false true n s) :
 /-- **Soundness of conflict detection.** In every reachable state, if `Commit` of an active
     transaction `x` would be accepted (`newCommitTs` returns a timestamp `ts`), then no transaction
     that obtained a commit timestamp in `(x.readTs, ts)` wrote a fingerprint that `x` read. -/
-theorem C02_sound {n : Nat} {s : Sys} (h : Reach false true n s) (tid : Nat) (x : TxnSt)
+theorem C02_sound {n : Nat} {s : Sys} (h : OReach false true n s) (tid : Nat) (x : TxnSt)
     (hx : s.txns[tid]? = some x) (hph : x.phase = .active) (ts : Nat)
     (hok : s.commitResult tid = some (.ok ts)) :
     ts = s.o.nextTxnTs ∧
@@ -81,7 +81,7 @@ theorem C02_sound {n : Nat} {s : Sys} (h : Reach false true n s) (tid : Nat) (x 
     rejected, some transaction that obtained a commit timestamp after `x.readTs` did write a
     fingerprint that `x` read. (Stated over the history of *allocated* timestamps: a transaction
     whose `sendToWriteCh` failed after `newCommitTs` stays in `committedTxns`, DESIGN F11.) -/
-theorem C02_complete {d : Bool} {n : Nat} {s : Sys} (h : Reach false d n s) (tid : Nat) (x : TxnSt)
+theorem C02_complete {d : Bool} {n : Nat} {s : Sys} (h : OReach false d n s) (tid : Nat) (x : TxnSt)
     (hx : s.txns[tid]? = some x) (hcf : s.commitResult tid = some .conflict) :
     ∃ fp ∈ x.t.reads, ∃ c ∈ s.hist, x.t.readTs < c.ts ∧ fp ∈ c.conflictKeys := by
   have hI := h.inv
@@ -129,7 +129,7 @@ theorem C02_conflict_no_trace (o : Oracle) (t : Txn) (hcf : (o.newCommitTs t).2.
 
 /-- … and at the level of the transition system: the step of a rejected `Commit` changes neither
     the oracle nor the history (the transaction merely waits for its deferred `Discard`). -/
-theorem C02_conflict_no_trace_step {d : Bool} {n : Nat} {s s' : Sys} (h : Reach false d n s) (tid : Nat)
+theorem C02_conflict_no_trace_step {d : Bool} {n : Nat} {s s' : Sys} (h : OReach false d n s) (tid : Nat)
     (hcf : s.commitResult tid = some .conflict) (hs : s.step (.commit tid) = some s') :
     s'.o.nextTxnTs = s.o.nextTxnTs ∧ s'.o.committedTxns = s.o.committedTxns ∧
     s'.o.lastCleanupTs = s.o.lastCleanupTs ∧ s'.hist = s.hist ∧ s'.doneCommits = s.doneCommits ∧
@@ -159,7 +159,7 @@ theorem C02_conflict_no_trace_step {d : Bool} {n : Nat} {s s' : Sys} (h : Reach 
     that precede it in commit-timestamp order (`ts < h.ts`): re-executing the history serially in
     commit-timestamp order, `h` reads the same versions it read at its snapshot. (No write skew /
     lost update on tracked reads; range phantoms are outside the statement, DESIGN §8.1.) -/
-theorem C02_serial {n : Nat} {s : Sys} (h : Reach false true n s) (e : HistEntry) (he : e ∈ s.hist)
+theorem C02_serial {n : Nat} {s : Sys} (h : OReach false true n s) (e : HistEntry) (he : e ∈ s.hist)
     (fp : Nat) (hfp : fp ∈ e.reads) :
     s.hist.filter (fun c => decide (fp ∈ c.conflictKeys ∧ c.ts ≤ e.readTs)) =
     s.hist.filter (fun c => decide (fp ∈ c.conflictKeys ∧ c.ts < e.ts)) ∧
@@ -167,7 +167,7 @@ theorem C02_serial {n : Nat} {s : Sys} (h : Reach false true n s) (e : HistEntry
   have hI := h.inv
   -- a transaction's read timestamp is below its commit timestamp
   have hlt : ∀ e ∈ s.hist, e.readTs < e.ts := by
-    -- carried by reachability: prove it by induction on `Reach` directly
+    -- carried by reachability: prove it by induction on `OReach` directly
     clear hfp he e
     induction h with
     | init => simp [Sys.opened]
@@ -291,7 +291,7 @@ theorem C02_serial {n : Nat} {s : Sys} (h : Reach false true n s) (e : HistEntry
     the discard timestamp has not been moved past `x`'s read timestamp (`discardTs ≤ x.readTs`, the
     documented contract of `SetDiscardTs`), then no transaction committed with a timestamp above
     `x.readTs` wrote a fingerprint that `x` read. -/
-theorem C02_sound_managed {n : Nat} {s : Sys} (h : Reach true true n s) (tid : Nat) (x : TxnSt)
+theorem C02_sound_managed {n : Nat} {s : Sys} (h : OReach true true n s) (tid : Nat) (x : TxnSt)
     (hx : s.txns[tid]? = some x) (ts cts : Nat) (hcontract : s.o.discardTs ≤ x.t.readTs)
     (hok : (s.o.newCommitTs { x.t with commitTs := ts }).2.2 = .ok cts) :
     cts = ts ∧ ∀ c ∈ s.hist, x.t.readTs < c.ts → ∀ fp ∈ x.t.reads, fp ∉ c.conflictKeys := by
@@ -310,7 +310,7 @@ theorem C02_sound_managed {n : Nat} {s : Sys} (h : Reach true true n s) (tid : N
       exact (Oracle.hasConflict_eq_false _ _).mp hcf' _ hin hlt fp hfp
 
 /-- **Completeness in managed mode**: a rejected `CommitAt` has a witness in the history. -/
-theorem C02_complete_managed {n : Nat} {s : Sys} (h : Reach true true n s) (t : Txn)
+theorem C02_complete_managed {n : Nat} {s : Sys} (h : OReach true true n s) (t : Txn)
     (hcf : (s.o.newCommitTs t).2.2 = .conflict) :
     ∃ fp ∈ t.reads, ∃ c ∈ s.hist, t.readTs < c.ts ∧ fp ∈ c.conflictKeys := by
   have hI := ReachM.inv h
@@ -333,7 +333,7 @@ theorem C02_managed_needs_contract :
          s.hist.map (fun c => (c.ts, c.conflictKeys)), s.o.discardTs)) =
     some (some (.ok 10), [(7, [1])], 9) := by decide
 
-/-- `Reach true true n` puts no order on `commitAt` timestamps (they are caller-chosen): the
+/-- `OReach true true n` puts no order on `commitAt` timestamps (they are caller-chosen): the
     managed-mode theorems cover non-monotonic histories. Witness (seeded/C02-hasconflict-break):
     0 reads fingerprint 1 at read timestamp 5, 1 overwrites it at 10, an unrelated commit lands at 3
     — the history is `[10, 3]` — and `CommitAt(11)` of 0 is rejected. -/
